@@ -104,6 +104,7 @@ fn call_immediate_signed(is: &[Instruction]) -> bool {
     })
 }
 
+#[allow(dead_code)]
 pub struct Verdict {
     pub text: Option<String>,
     pub debug_text: String,
